@@ -171,6 +171,7 @@ Inductive pop :=
 | OpArith (sub : bool) (n stride : Z)     (* p+n p-n p+=n p-=n ++p p++ --p p-- *)
 | OpIndex (n stride : Z)                  (* &p[n] *)
 | OpField (off : Z)                       (* &(p->f)  &(( *p)[i])  : unchecked addition *)
+| OpElem (i len elsz : Z)                 (* &(( *p)[i]) through a pointer to a fixed array: index check, then addition *)
 | OpCast                                  (* sandbox_*_cast, to_opaque/from_opaque, & *p *)
 | OpLoadPtr (rep : Z)                     (* q = *pp, the cell holds the adversarial bits rep *)
 | OpFromGuest (rep : Z)                   (* call result / callback argument *)
@@ -184,6 +185,7 @@ Definition step_pop (idxchk : bool) (l : list region) (s : region) (p : Z) (o : 
   | OpArith sub n stride => ptr_arith l sub p n stride
   | OpIndex n stride => ptr_index_gen idxchk l p n stride
   | OpField off => Ok (field_addr p off)
+  | OpElem i len elsz => arr_index IULong i len p elsz
   | OpCast => Ok p
   | OpLoadPtr rep => if p =? 0 then Fault else load_ptr_cell l p rep
   | OpFromGuest rep => Ok (unsandbox s rep)
@@ -206,7 +208,10 @@ Fixpoint fields_safe (idxchk : bool) (l : list region) (s : region) (p : Z) (ops
   match ops with
   | [] => true
   | o :: tl =>
-    (match o with OpField off => field_safe s p off | _ => true end) &&
+    (match o with
+     | OpField off => field_safe s p off
+     | OpElem i len elsz => field_safe s p (i * elsz)
+     | _ => true end) &&
     match step_pop idxchk l s p o with Ok q => fields_safe idxchk l s q tl | _ => true end
   end.
 
